@@ -9,7 +9,7 @@
    lo <= hi, at least one grid point, strictly increasing, all inside [lo, hi].
    [nthR i l] is [nth i l 0]. *)
 From Coq Require Import ZArith Reals List Bool.
-From Verif Require Import Base.Num Base.Vec C14.Model C14.Proofs C14.ProofsIndex C14.ProofsUniform C14.ProofsSlice C14.ProofsNd C14.ProofsAxes.
+From Verif Require Import Base.Num Base.Vec C14.Model C14.Proofs C14.ProofsIndex C14.ProofsUniform C14.ProofsSlice C14.ProofsNd C14.ProofsAxes C14.ProofsFactories.
 Import ListNotations.
 Local Open Scope R_scope.
 
@@ -328,3 +328,25 @@ Theorem squeeze_removes_exactly_the_one_point_axes : forall (T : Type) (p : list
   squeeze p AxAll = Ok (filter nondegen p).
 Proof. exact (@squeeze_all). Qed.
 Print Assumptions squeeze_removes_exactly_the_one_point_axes.
+
+(* ------------------------------------------------------------------ *)
+(* T2. nonuniform_partition(coords, nodes_on_bdry=fl) / uniform_partition_fromgrid(grid) without
+   explicit limits, any strictly increasing vector with >= 2 points:
+     default_axis cs fl = (x_0 | x_0 - (x_1 - x_0)/2,  x_last | x_last + (x_last - x_prev)/2,  cs)
+   is what both build; it is a valid partition, the nodes are on the boundary exactly on the
+   requested sides, and the boundary fractions are 1/2 resp. 1 (outermost nodes are cell
+   midpoints).  One point: the interval collapses to the point. *)
+Theorem nonuniform_partition_default_limits : forall (cs : list R) (fl : bool * bool),
+  sincr cs -> (2 <= length cs)%nat ->
+  let ax := default_axis cs fl in
+  nonuniform_axis cs None None fl = Ok ax /\ valid ax /\ nodes_on_bdry ax = fl /\
+  bdry_fracs ax = (if fst fl then 1 / 2 else 1, if snd fl then 1 / 2 else 1) /\
+  fromgrid_axis cs None None = Ok (default_axis cs (false, false)).
+Proof. exact nonuniform_default_spec. Qed.
+Print Assumptions nonuniform_partition_default_limits.
+Theorem nonuniform_partition_single_point : forall (c : R) (fl : bool * bool),
+  nonuniform_axis [c] None None fl = Ok (mkAxis c c [c]).
+Proof. exact nonuniform_single. Qed.
+Theorem nonuniform_partition_given_limits : forall (cs : list R) (lo hi : R),
+  nonuniform_axis cs (Some lo) (Some hi) (false, false) = Ok (mkAxis lo hi cs).
+Proof. exact nonuniform_given. Qed.
